@@ -3,6 +3,11 @@
 #include <osmium/osm/location.hpp>
 #include <osmium/osm/timestamp.hpp>
 #include <osmium/osm/types_from_string.hpp>
+#include <osmium/io/opl_output.hpp>
+#include <osmium/io/writer.hpp>
+#include <osmium/builder/osm_object_builder.hpp>
+#include <fstream>
+#include <unistd.h>
 #include <osmium/io/detail/opl_parser_functions.hpp>
 #include <osmium/io/detail/output_format.hpp>
 #include <random>
@@ -152,6 +157,27 @@ static int check_attr(const std::string& s, bool search) {
     return 0;
 }
 
+// output_int through the OPL writer: the id of a node as text
+static int check_outint(long long v, bool search) {
+    char name[] = "/tmp/c13_outint_XXXXXX"; const int fd = mkstemp(name); if (fd < 0) return 2; close(fd);
+    { osmium::io::File f{name, "opl"}; osmium::io::Writer w{f, osmium::io::overwrite::allow}; osmium::memory::Buffer buf{10240};
+      { osmium::builder::NodeBuilder b{buf}; b.set_id(v).set_version(1); b.set_user("u"); }
+      buf.commit(); w(std::move(buf)); w.close(); }
+    std::ifstream in(name); std::string line; std::getline(in, line); unlink(name);
+    const std::string got = line.substr(1, line.find(' ') - 1); const std::string want = std::to_string(v);
+    if (got != want) { std::printf("OPL writer: node id %lld is written as \"%s\"\nARGV: outint %s\n", v, got.c_str(), search ? "search" : want.c_str()); return 1; }
+    return 0;
+}
+
+// Timestamp::to_iso_all against strftime(gmtime_r), and the parse/format round trip
+static int check_iso(uint32_t t, bool search) {
+    const std::string got = osmium::Timestamp{t}.to_iso_all();
+    char ref[32]; std::time_t tt = t; std::tm tm; gmtime_r(&tt, &tm); std::strftime(ref, sizeof ref, "%Y-%m-%dT%H:%M:%SZ", &tm);
+    if (got != ref) { std::printf("Timestamp(%u).to_iso_all() = \"%s\", the calendar says \"%s\"\nARGV: iso %u\n", t, got.c_str(), ref, search ? 0u : t); return 1; }
+    if (uint32_t(osmium::Timestamp{got.c_str()}) != t) { std::printf("parse(iso(%u)) = %u\nARGV: iso %u\n", t, uint32_t(osmium::Timestamp{got.c_str()}), t); return 1; }
+    return 0;
+}
+
 int main(int argc, char** argv) {
     if (argc >= 2 && std::string(argv[1]) == "--search") {
         unsigned seed = argc > 2 ? unsigned(std::atoll(argv[2])) : 0; std::string only = argc > 3 ? argv[3] : "";
@@ -175,6 +201,14 @@ int main(int argc, char** argv) {
                 for (auto c : corpus) if (check_int(t, c, true)) return 1;
                 for (int i = 0; i < 100000; ++i) { std::string s; if (rng() % 3 == 0) s += '-'; int n = rng() % 22; for (int k = 0; k < n; ++k) s += char('0' + rng() % 10); if (rng() % 4 == 0) s += " x"[rng() % 2]; if (check_int(t, s, true)) return 1; } }
         }
+        if (all || only.find("timestamp") != std::string::npos || only.find("iso") != std::string::npos) {
+            for (uint32_t t : {0u, 1u, 86399u, 86400u, 951782400u, 4102444799u, 4102444800u, 4294967295u, 2147483648u, 1583020800u}) if (check_iso(t, true)) return 1;
+            for (int i = 0; i < 200000; ++i) if (check_iso(uint32_t(rng()), true)) return 1;
+        }
+        if (all || only.find("output_int") != std::string::npos) {
+            for (long long v : {0LL, 1LL, -1LL, 9LL, 10LL, -10LL, 9223372036854775807LL, -9223372036854775807LL, -9223372036854775807LL - 1, 1000000000000000000LL, -999999999999999999LL}) if (check_outint(v, true)) return 1;
+            for (int i = 0; i < 300; ++i) if (check_outint((long long)rng(), true)) return 1;
+        }
         if (all || only.find("string_to") != std::string::npos) {
             const char* corpus[] = {"", "-1", "-0", "-2", "0", "1", "+5", " 5", "5 ", "4294967294", "4294967295", "4294967296", "18446744073709551615", "18446744073709551616", "-18446744073709551615",
                                     "-18446744073709551574", "-18446744069414584322", "-18446744073709551616", "99999999999999999999999", "0x10", "1e3", "00000000000000000000000000000000000007", "-", "+"};
@@ -187,6 +221,8 @@ int main(int argc, char** argv) {
     if (argc < 3) return 2;
     std::string m = argv[1];
     if (m == "coord") return check_coord(unhex(argv[2]), false);
+    if (m == "iso") return check_iso(uint32_t(std::atoll(argv[2])), false);
+    if (m == "outint") return check_outint(std::atoll(argv[2]), false);
     if (m == "attr") return check_attr(argv[2], false);
     if (m == "fmt") return check_fmt(int32_t(std::atoll(argv[2])), false);
     if (m == "int" && argc >= 4) return check_int(argv[2], unhex(argv[3]), false);
